@@ -6,6 +6,8 @@ CfgsSmall == {[fl |-> "optional", ct |-> "vector", n |-> 0, fwd |-> 1, cas |-> 1
 (* the extents of the array types instantiated in the harness *)
 CfgsReal  == {[fl |-> "optional", ct |-> "vector", n |-> 0, fwd |-> 1, cas |-> 1], [fl |-> "optional", ct |-> "array", n |-> 3, fwd |-> 1, cas |-> 1],
               [fl |-> "complex",  ct |-> "vector", n |-> 0, fwd |-> 1, cas |-> 1], [fl |-> "complex",  ct |-> "array", n |-> 3, fwd |-> 1, cas |-> 1]}
+(* extent 0: the array flavours with nothing in them *)
+CfgsArr0  == {[fl |-> "optional", ct |-> "array", n |-> 0, fwd |-> 1, cas |-> 1], [fl |-> "complex",  ct |-> "array", n |-> 0, fwd |-> 1, cas |-> 1]}
 CfgsOV    == {[fl |-> "optional", ct |-> "vector", n |-> 0, fwd |-> 1, cas |-> 1]}
 CfgsOA    == {[fl |-> "optional", ct |-> "array", n |-> 3, fwd |-> 1, cas |-> 1]}
 CfgsCV    == {[fl |-> "complex",  ct |-> "vector", n |-> 0, fwd |-> 1, cas |-> 1]}
@@ -13,18 +15,18 @@ CfgsCA    == {[fl |-> "complex",  ct |-> "array", n |-> 3, fwd |-> 1, cas |-> 1]
 (* a build in which the array flavours have no usable forward iterator and complex proxies no assignment *)
 CfgsPoor  == {[fl |-> "optional", ct |-> "array", n |-> 2, fwd |-> 0, cas |-> 1], [fl |-> "complex",  ct |-> "array", n |-> 2, fwd |-> 0, cas |-> 0],
               [fl |-> "complex",  ct |-> "vector", n |-> 0, fwd |-> 1, cas |-> 0]}
-CfgsMC    == CfgsReal \cup CfgsPoor
+CfgsMC    == CfgsReal \cup CfgsPoor \cup CfgsArr0
 CfgsVec   == CfgsOV \cup CfgsCV
-CfgsArr   == CfgsOA \cup CfgsCA
+CfgsArr   == CfgsOA \cup CfgsCA \cup CfgsArr0
 NoOther   == {}
 AllIL     == SeqsUpTo(Vals \X Vals, MaxLen)
 RepIL     == {<<>>, <<<<1, 2>>>>, <<<<0, 0>>, <<7, 1>>>>, <<<<1, 0>>, <<0, 1>>, <<2, 2>>>>, <<<<7, 7>>, <<0, 0>>, <<1, 2>>, <<2, 1>>>>,
               <<<<1, 1>>, <<2, 2>>, <<0, 7>>, <<7, 0>>, <<1, 7>>>>, <<<<0, 1>>, <<0, 2>>, <<0, 7>>, <<1, 0>>, <<2, 0>>, <<7, 0>>>>}
 (* representative contents for the second object in S->C runs *)
 RepOther  == {<<>>, <<<<1, 1>>>>, <<<<0, 0>>, <<0, 0>>, <<0, 0>>>>, <<<<1, 0>>, <<0, 1>>, <<1, 1>>>>, <<<<0, 1>>, <<1, 1>>, <<1, 0>>, <<0, 0>>>>}
-AllClasses == {"ctor", "il", "pair", "size", "at", "read", "write", "under", "iter"}
-NoPair     == {"ctor", "il", "size", "at", "read", "write", "under", "iter"}
+AllClasses == {"ctor", "il", "pair", "size", "at", "read", "write", "under", "iter", "misc"}
+NoPair     == {"ctor", "il", "size", "at", "read", "write", "under", "iter", "misc"}
 NoEmit     == {}
 AllOps     == {"CtorDefault", "CtorN", "CtorNV", "CtorNO", "CtorIL", "CtorCopy", "CopyAssign", "CtorMove", "MoveAssign",
-               "Resize", "ResizeV", "ResizeO", "At", "Read", "Write", "WriteUnder", "Extract", "IterRel"}
+               "Resize", "ResizeV", "ResizeO", "At", "Read", "Write", "WriteUnder", "Extract", "IterRel", "ProxySwap", "MaxSize", "Rel"}
 =============================================================================
